@@ -23,6 +23,7 @@ import (
 )
 
 const pubName = "public.example"
+const oldPubName = "old-public.example"
 
 type cfg struct {
 	ClientCurves  int  `json:"client_curves"`  // 0 default, 1 [X25519], 2 [P256], 3 [X25519,P256]
@@ -35,7 +36,7 @@ type cfg struct {
 	Chain         int  `json:"backend_cert_pad"`
 	KeySet        int  `json:"key_set"` // 0 [T], 1 [T,otherId], 2 [sameId,T], 3 [T,sameId]
 	AEAD          int  `json:"aead"`
-	Stale         int  `json:"client_config"` // 0 fresh, 1 stale (other id), 2 stale (same id as the current key)
+	Stale         int  `json:"client_config"` // 0 fresh, 1 stale (other id), 2 stale (same id as the current key), 3 stale (same id, the public name has changed since)
 }
 
 var curveSets = [][]tls.CurveID{nil, {tls.X25519}, {tls.CurveP256}, {tls.X25519, tls.CurveP256}}
@@ -64,15 +65,16 @@ func serverName(n int) string {
 }
 
 type env struct {
-	T, S1, S2, otherID, sameID echx.KeyPair
+	T, S1, S2, S3, otherID, sameID echx.KeyPair
 }
 
 func mkEnv(aead int) env {
 	suite := []tlsref.Suite{{KDF: 1, AEAD: uint16(aead)}}
 	return env{
 		T:       echx.NewKey(fmt.Sprintf("c01-T-%d", aead), 42, suite, pubName),
-		S1:      echx.NewKey(fmt.Sprintf("c01-S1-%d", aead), 17, suite, pubName), // stale, other id
-		S2:      echx.NewKey(fmt.Sprintf("c01-S2-%d", aead), 42, suite, pubName), // stale, same id as T
+		S1:      echx.NewKey(fmt.Sprintf("c01-S1-%d", aead), 17, suite, pubName),    // stale, other id
+		S2:      echx.NewKey(fmt.Sprintf("c01-S2-%d", aead), 42, suite, pubName),    // stale, same id as T
+		S3:      echx.NewKey(fmt.Sprintf("c01-S3-%d", aead), 42, suite, oldPubName), // stale, same id as T, former public name
 		otherID: echx.NewKey("c01-other", 99, echx.AllSuites, pubName),
 		sameID:  echx.NewKey("c01-same", 42, echx.AllSuites, pubName),
 	}
@@ -130,7 +132,7 @@ func attempt(c cfg, e env, name string, ccfg *tls.Config, backend *tls.Config, p
 		target := bcfg
 		if !conn.ECHAccepted() {
 			// split mode: the outer hello is routed to the public-name server
-			if conn.ServerName() != pubName {
+			if conn.ServerName() != pubName && conn.ServerName() != oldPubName {
 				return nil, fmt.Errorf("not accepted and outer SNI %q is not the public name", conn.ServerName())
 			}
 			target = publicSrv
@@ -178,7 +180,7 @@ func evalCfg(c cfg) (key, what, oc string) {
 	}
 	// the public-name server uses the same curve preferences as the backend, so that a stale-config
 	// handshake can also go through a HelloRetryRequest (on the OUTER hello)
-	publicSrv := &tls.Config{Certificates: []tls.Certificate{tlsx.Leaf(0, false, pubName)}, MinVersion: tls.VersionTLS13,
+	publicSrv := &tls.Config{Certificates: []tls.Certificate{tlsx.Leaf(0, false, pubName, oldPubName)}, MinVersion: tls.VersionTLS13,
 		EncryptedClientHelloKeys: []tls.EncryptedClientHelloKey{e.T.Key()}, CurvePreferences: backendCurveSets[c.BackendCurves]}
 	mkClient := func(list []byte, cache tls.ClientSessionCache) *tls.Config {
 		cc := &tls.Config{ServerName: name, RootCAs: tlsx.Pool(), MinVersion: tls.VersionTLS13, NextProtos: clientALPNs[c.ClientALPN],
@@ -212,6 +214,8 @@ func evalCfg(c cfg) (key, what, oc string) {
 		list = configList(e.S1)
 	case 2:
 		list = configList(e.S2)
+	case 3:
+		list = configList(e.S3)
 	}
 	cache := newCache()
 	check := func(o outcome, conn *ech.Conn, ref outcome, phase string) (string, string) {
@@ -294,16 +298,16 @@ func classify(errStr string, c cfg) string {
 }
 
 func Run(r *ev.Run) {
-	r.Rule("E1 exhaustive product of real-stack configurations: client curve lists {default(X25519MLKEM768 first), [X25519], [P256], [X25519,P256]} x backend curves {default,[P256]} (HelloRetryRequest whenever the first share is unusable) x client ALPN {none,[h2],[h2,http/1.1]} x backend ALPN {none,[http/1.1,h2]} x server-name length {3,63,253} x session cache {cold, warm: second connection resumes} x client certificate {none, small, 17 KB} x backend certificate {0.5, 12, 17, 40 KB} x key set {[T],[T,other id],[same id,T],[T,same id]} x AEAD {1,2,3} x client config {fresh, stale other id, stale same id}; quick = full product over a reduced domain per dimension (stated in evidence), thorough = full product. Each point: direct handshake without ech.Conn as oracle, then split-mode handshake(s); distinct = distinct configuration points that are conforming (direct handshake succeeds)")
+	r.Rule("E1 exhaustive product of real-stack configurations: client curve lists {default(X25519MLKEM768 first), [X25519], [P256], [X25519,P256]} x backend curves {default,[P256]} (HelloRetryRequest whenever the first share is unusable) x client ALPN {none,[h2],[h2,http/1.1]} x backend ALPN {none,[http/1.1,h2]} x server-name length {3,63,253} x session cache {cold, warm: second connection resumes} x client certificate {none, small, 17 KB} x backend certificate {0.5, 12, 17, 40 KB} x key set {[T],[T,other id],[same id,T],[T,same id]} x AEAD {1,2,3} x client config {fresh, stale other id, stale same id, stale same id with a former public name}; quick = full product over a reduced domain per dimension (stated in evidence), thorough = full product. Each point: direct handshake without ech.Conn as oracle, then split-mode handshake(s); distinct = distinct configuration points that are conforming (direct handshake succeeds)")
 	r.Assume("crypto/tls (go1.24) client and server are conforming TLS 1.3 / ECH implementations", "real TLS stacks run goroutines outside any scheduler: a failing point is re-executed and reported only if it fails 5 times out of 5 (else counted as unstable)")
 	type dom struct {
 		cc, bc, ca, ba, nl, warm, cert, chain, ks, aead, stale []int
 	}
 	d := dom{cc: []int{0, 1, 2, 3}, bc: []int{0, 1}, ca: []int{0, 1, 2}, ba: []int{0, 1}, nl: []int{3, 63, 253}, warm: []int{0, 1},
-		cert: []int{-1, 0, 17000}, chain: []int{0, 12000, 17000, 40000}, ks: []int{0, 1, 2, 3}, aead: []int{1, 2, 3}, stale: []int{0, 1, 2}}
+		cert: []int{-1, 0, 17000}, chain: []int{0, 12000, 17000, 40000}, ks: []int{0, 1, 2, 3}, aead: []int{1, 2, 3}, stale: []int{0, 1, 2, 3}}
 	if !r.Thorough() {
 		d = dom{cc: []int{0, 3}, bc: []int{0, 1}, ca: []int{0, 2}, ba: []int{0, 1}, nl: []int{3, 253}, warm: []int{0, 1},
-			cert: []int{-1, 17000}, chain: []int{0, 17000, 40000}, ks: []int{0, 2}, aead: []int{1, 3}, stale: []int{0, 1, 2}}
+			cert: []int{-1, 17000}, chain: []int{0, 17000, 40000}, ks: []int{0, 2}, aead: []int{1, 3}, stale: []int{0, 1, 2, 3}}
 	}
 	r.Set("domain", fmt.Sprintf("%+v", d))
 	prod := enum.Product{len(d.cc), len(d.bc), len(d.ca), len(d.ba), len(d.nl), len(d.warm), len(d.cert), len(d.chain), len(d.ks), len(d.aead), len(d.stale)}
